@@ -90,4 +90,46 @@ CHECK_TEXT = {
         "level_note": "The daemon is a fake implementing avahi.ServerInterface; name collisions and real D-Bus timing are not modelled.",
         "design_ref": "DESIGN.md 6 C19",
     },
+    "C02": {
+        "technique": "runtime monitor at an independent endpoint: adversarial TLS/websocket peers with crafted certificates observe whether any SHIP byte is exchanged; application callback log",
+        "level_text": "Every explored adversarial peer (160 quick / 3000 thorough) was refused before any SHIP message and every legitimate one accepted; generator certificates always pass.",
+        "level_note": "Loopback TLS with Go's crypto/tls on both sides; certificate classes are generated, not all possible encodings.",
+        "design_ref": "DESIGN.md 6 C02",
+    },
+    "C05": {
+        "technique": "runtime bounded-progress monitor over real hub pairs: registry views, proxy connection counts, pairing details and payload echo after seeded disturbance sequences",
+        "level_text": "All explored scenarios converged to exactly one working connection within the watchdog after the last disturbance (48 quick / 1500 thorough pairs).",
+        "level_note": "Liveness restated as bounded progress; in-process peer restart; schedules are whatever loopback timing produces (perturbation where available).",
+        "design_ref": "DESIGN.md 6 C05",
+    },
+    "C10": {
+        "technique": "runtime monitor over globally sequenced API call/return events and TCP accepts at per-(dialler,target) proxies (ordering oracle with a 500 ms in-flight tolerance)",
+        "level_text": "No dial to unregistered SKIs, none after unregister/cancel/shutdown returned, and the stated end state on every explored operation script.",
+        "level_note": "The tolerance is sound by workload design (delayed dials wait >= 1 s); three hubs on loopback.",
+        "design_ref": "DESIGN.md 6 C10",
+    },
+    "C11": {
+        "technique": "runtime exactly-once monitor over close reports per connection object (virtual time, cause pairs) + last-notification-vs-registry consistency monitor on real hubs",
+        "level_text": "Exactly one close report per ended connection on all explored cause pairs/offsets and consistent final notifications on all explored hub scenarios.",
+        "level_note": "Hub-level registry identity comes from the verif registry hook; hub scenarios are real-time.",
+        "design_ref": "DESIGN.md 6 C11",
+    },
+    "C15": {
+        "technique": "metamorphic runtime check: canonical vs re-spelled SKI arguments on twin hub pairs, per-step effect comparison in equal hub states",
+        "level_text": "Every compared step had identical effects for canonical and re-spelled SKIs (operations x hub states x 4 spellings).",
+        "level_note": "Steps whose twin runs were not in the same stable state are not compared (counted).",
+        "design_ref": "DESIGN.md 6 C15",
+    },
+    "C18": {
+        "technique": "runtime monitor: last delivered pairing-state notification vs PairingDetailForSki at a settled point on real hub pairs",
+        "level_text": "At every settled point of the explored runs the last notification showed the current state.",
+        "level_note": "Decides the final clause; intermediate reorderings that do not end stale are observationally not distinguishable from legitimate sequences (DESIGN.md).",
+        "design_ref": "DESIGN.md 6 C18",
+    },
+    "C20": {
+        "technique": "Go race detector over all engines' workloads plus a dedicated concurrent hub API stress profile; reports parsed from GORACE logs and de-duplicated by access pair",
+        "level_text": "No data race with a library frame reported on the explored executions; evidence lists the overlapping operation pairs actually observed.",
+        "level_note": "A clean run means no race on these executions, never race freedom.",
+        "design_ref": "DESIGN.md 6 C20, 3.3",
+    },
 }
